@@ -2,7 +2,7 @@
 from vlib import q
 from vlib.cfg import cfg_of
 from vlib.prov import peel, fmt, is_param, contains, alts, leaves, is_param_field, same_origin, deep_peel, just
-from rules.C14 import store_calls, staker_set_calls, STAKES, VINFO, QUEUE, SK, _succ_dom, _arm
+from rules.C14 import store_calls, staker_set_calls, STAKES, VINFO, QUEUE, SK, _succ_dom, _arm, vinfo_source
 
 LEVEL = "other"
 LEVEL_TEXT = (
@@ -223,7 +223,7 @@ def r2_r3(ctx, cfg, R2="C16.R2", R3="C16.R3"):
                 kk = peel(k)
                 ok = kk[0] == "agg" and kk[1] == "tuple" and len(kk[2]) == 2 and is_param(kk[2][1][1], "validator") and \
                     contains(kk[2][0][1], lambda x: x[0] == "field" and x[2] == "stakers" and contains(
-                        x[1], lambda y: y[0] == "call" and y[1] == "cw_storage_plus::Map::may_load" and peel(y[2][0]) == VINFO and is_param(y[2][2], "validator")))
+                        x[1], lambda y: vinfo_source(y, lambda k0: is_param(k0, "validator"))))
             else:
                 ok = is_param(k, "validator")
             ctx.ob(R3, key, "key-of-%s.%s-is-slashed-validator%s" % (item[1].rsplit("::", 1)[1], t["callee"]["name"], q_tag(f, t)), ok,
